@@ -346,7 +346,7 @@ def run(ck, prog):
     # prerequisites shared with C11: the structural rules of the queue the processors rely on
     from . import c11
     ck.doc('C11.R1', '(prerequisite, see C11) ownership typestate of CircularBuffer::Add / AtomicUniquePtr', 10)
-    ck.doc('C11.R2', '(prerequisite, see C11) queue guard agreement: fullness, capacity, slot index, tail advance, size', 7)
+    ck.doc('C11.R2', '(prerequisite, see C11) queue guard agreement: fullness, capacity, slot index, tail advance, size; who writes the counters', 9)
     CB = 'sdk::common::CircularBuffer'
     for f in c11._lvalue_add(prog, CB):
         gq, rdq, full_rel = c11.rule_r1_add(ck, prog, f)
